@@ -1064,6 +1064,11 @@ func runHistory(r *vf.Run, idx int, rng *vf.RNG, base string, donors []*donor, f
 	h.cli = cli
 	nops := rng.Range(9, 15)
 	k := rng.Range(4, 6)
+	erng := rng.Sub(0xE0) // export decisions: a stream of their own, the op and fault streams do not depend on them
+	exportAfter := -1
+	if erng.Chance(15) {
+		exportAfter = erng.Intn(nops)
+	}
 	var v *viol
 	var where string
 	for n := 0; n < nops && v == nil; n++ {
@@ -1071,6 +1076,14 @@ func runHistory(r *vf.Run, idx int, rng *vf.RNG, base string, donors []*donor, f
 			v = &viol{"panic:op", fmt.Sprint(p)}
 		}
 		where = fmt.Sprintf("after op %d", n)
+		if v == nil && n == exportAfter {
+			// "account export" of the wallet to another file; the history goes on with the original client
+			if p := vf.Catch(func() { v = h.exportFlow(erng, "", filepath.Join(h.dir, "export.dat"), n) }); p != nil {
+				v = &viol{"panic:export", fmt.Sprint(p)}
+			}
+			where = fmt.Sprintf("export after op %d", n)
+			count("history_with_export")
+		}
 		if v == nil && (n+1)%k == 0 && n+1 < nops && len(h.model) > 0 {
 			var fresh *account.ClientImpl
 			if p := vf.Catch(func() { fresh, v = h.reloadCheck(false) }); p != nil {
@@ -1128,7 +1141,7 @@ func runHistory(r *vf.Run, idx int, rng *vf.RNG, base string, donors []*donor, f
 
 func main() {
 	r := vf.NewRun("C38", "exploration",
-		"seeded histories of 9–15 wallet operations (NewAccount over 6 key types, ImportAccount of donor accounts from other wallets, DeleteAccount, SetDefaultAccount, SetLabel from a 10-label alphabet incl. empty and x_1 names, ChangePassword with right/former/other/random old password, ChangeSigScheme compatible/incompatible) on at most 4 accounts, through account.ClientImpl on a real wallet file with the wallet's own scrypt parameters; 8–50% of the calls (per op kind, higher for calls whose arguments get as far as the save; separate seeded stream) run while the save path is obstructed (directory at <wallet>~, symlink <wallet>~ -> /dev/full, directory at <wallet> before the first save) so that the save inside the op fails and its rollback runs; live-vs-model check after every op, live-vs-before check after every op under an obstructed save, reload check every 4–6 ops, after the first successful save that follows a failed one, and at the end; distinct by (history, op kinds with outcomes incl. obstructed, final account count)")
+		"seeded histories of 9–15 wallet operations (NewAccount over 6 key types, ImportAccount of donor accounts from other wallets, DeleteAccount, SetDefaultAccount, SetLabel from a 10-label alphabet incl. empty and x_1 names, ChangePassword with right/former/other/random old password, ChangeSigScheme compatible/incompatible) on at most 4 accounts, through account.ClientImpl on a real wallet file with the wallet's own scrypt parameters; 8–50% of the calls (per op kind, higher for calls whose arguments get as far as the save; separate seeded stream) run while the save path is obstructed (directory at <wallet>~, symlink <wallet>~ -> /dev/full, directory at <wallet> before the first save) so that the save inside the op fails and its rollback runs; live-vs-model check after every op, live-vs-before check after every op under an obstructed save, reload check every 4–6 ops, after the first successful save that follows a failed one, and at the end; distinct by (history, op kinds with outcomes incl. obstructed, final account count); 15% of the histories export the wallet once (GetWalletData, Clone, ToLowSecurity / ToDefaultSecurity, Save to another file, as 'account export [--low-security]') at a seeded point and go on with the original client; plus directed sweeps on copies of a 4-account wallet (default account at each position): every mutating op at every account position with valid arguments under an obstructed save, in seeded order, with one export flow, a forced save after each op or at the end, reload at the end")
 	rng := vf.NewRNG(vf.Seed())
 	base := vf.Scratch("c38")
 	defer os.RemoveAll(base)
@@ -1178,8 +1191,20 @@ func main() {
 		}
 	}
 
-	vf.Parallel(nHist, workers, func(i int) {
-		runHistory(r, i, rng.Sub(uint64(i)), base, donors, vf.Thorough(), count)
+	// directed families (sweep.go): every mutating op at every account position under a failing save; export flows
+	nSweep := vf.N(8, 32)
+	sb, err := makeSweepBase(base, rng.Sub(8_000_000), donors)
+	if err != nil {
+		r.Inconclusive("base wallet of the failed-save sweeps could not be created: " + err.Error())
+		os.RemoveAll(base)
+		r.Finish()
+	}
+	vf.Parallel(nHist+nSweep, workers, func(i int) {
+		if i < nSweep { // the sweeps are the longest cases: started first
+			runSweep(r, i, rng.Sub(uint64(7_000_000+i)), base, sb, donors, false, count)
+			return
+		}
+		runHistory(r, i-nSweep, rng.Sub(uint64(i-nSweep)), base, donors, vf.Thorough(), count)
 	})
 	for k, n := range counts {
 		r.Add(k, n)
@@ -1210,6 +1235,25 @@ func main() {
 	if devFullOK {
 		r.Require("fault_mode_"+faultTmpFull, 1)
 	}
+	// directed families
+	for _, k := range []string{"new", "import", "delete", "setdefault", "setlabel", "changepwd", "changesig"} {
+		if k == "changepwd" {
+			r.Require("sweep_"+k+"_save_failed", int64(nSweep/2))
+			continue
+		}
+		r.Require("sweep_"+k+"_save_failed", int64(nSweep))
+	}
+	for _, k := range []string{"delete", "setdefault", "setlabel", "changesig"} {
+		for _, p := range []string{"first", "middle", "last"} {
+			r.Require("sweep_"+k+"_at_position_"+p, 2)
+		}
+	}
+	for _, c := range []string{"sweep_completed", "export_" + expLow, "export_" + expLowDefault, "export_" + expPlain, "export_" + expWrongPwd,
+		"export_bad_password_rejected", "export_live_unchanged", "exported_wallet_checked", "failed_save_exported_current_password_opens",
+		"exported_wrong_password_rejected"} {
+		r.Require(c, 1)
+	}
+	r.Require("export_live_unchanged", int64(nSweep))
 	r.Assume("passwords are non-empty (NewAccount rejects an empty password and the CLI never passes one)")
 	r.Assume("ImportAccount is only issued for an address that is not in the wallet (cmd/account_cmd.go checks GetAccountMetadataByAddress first); the wallet itself does not reject a duplicate address")
 	r.Assume("whether an op is accepted follows the API's own result, except where the statement decides it: a key may only be opened (ChangePassword, DeleteAccount, GetAccount*) with the current password, duplicate non-empty labels and scheme/key-type mismatches in ChangeSigScheme must be refused")
